@@ -19,13 +19,13 @@ var mutKinds = []string{"connect_sensors", "add_link", "add_node", "link_weights
 	"link_trait", "node_trait", "toggle_enable", "gene_reenable", "all_nonstructural"}
 
 type opSpec struct {
-	Kind   string  `json:"kind"` // dup | mut | mate
-	Mut    int     `json:"mut"`  // index into mutKinds
-	Times  int     `json:"times"`
-	Method int     `json:"method"`
-	NewId  int     `json:"new_id"`
-	F1     JF      `json:"f1"`
-	F2     JF      `json:"f2"`
+	Kind   string `json:"kind"` // dup | mut | mate
+	Mut    int    `json:"mut"`  // index into mutKinds
+	Times  int    `json:"times"`
+	Method int    `json:"method"`
+	NewId  int    `json:"new_id"`
+	F1     JF     `json:"f1"`
+	F2     JF     `json:"f2"`
 }
 
 type innovJSON struct {
